@@ -164,6 +164,24 @@ def search(ctx):
                           dict(kind="order-probe", dev=dev))
     except Exception as ex:
         ctx.notes.append("order probe raised %r" % (ex,))
+    # deterministic probe (known finding): the extinction cross section of a lossless dimer is not rotation covariant
+    try:
+        from holopy.scattering import calc_cross_sections
+        base = [Sphere(n=1.59, r=0.4, center=(0.5, 0, 0)), Sphere(n=1.5, r=0.3, center=(-0.45, 0, 0))]
+        vals = []
+        for a in (0.0, 0.5):
+            cl = Spheres([Sphere(n=s.n, r=s.r, center=rotz(s.center, a)) for s in base], warn=False)
+            vals.append(calc_cross_sections(cl, illum_polarization=(math.cos(a), math.sin(a)), theory=Multisphere(**TIGHT), **OPT).values)
+        ctx.tried("cext-rotation-probe", ("dimer",))
+        dsca = abs(vals[1][0] - vals[0][0]) / vals[0][0]
+        dext = abs(vals[1][2] - vals[0][2]) / vals[0][2]
+        if dsca > 1e-5:
+            ctx.violation("C09:csca-rotation", "rotating cluster and polarisation by 0.5 rad changes the multi-sphere scattering cross section by %.3g" % dsca, dict(kind="cext-probe"))
+        if dext > 1e-5:
+            ctx.violation("C09:cext-rotation:oblique-cluster", "rotating a lossless dimer and the polarisation together by 0.5 rad changes the multi-sphere extinction cross section by %.3g (scattering: %.3g); it then reports absorption %.3g for real indices" % (dext, dsca, vals[1][1]),
+                          dict(kind="cext-probe", unrotated=[float(v) for v in vals[0]], rotated=[float(v) for v in vals[1]]))
+    except Exception as ex:
+        ctx.notes.append("cext rotation probe raised %r" % (ex,))
     for i in range(n):
         try:
             m = int(rng.integers(1, 7)) if i % 3 else int(rng.integers(2, 5))
